@@ -208,8 +208,18 @@ func VerifC12LockHash() {
 	l1.LockHash = lh.LockHash
 	vrt.Assume(h1.NumValidators == nv)
 	vrt.Assert("a lock with freshly set hashes verifies", l1.VerifyHashes() == nil)
+	// the definition embedded in l2 may carry altered hash FIELDS (the lock hash covers the definition's content, not these
+	// two fields: only the definition's own hash verification inside Lock.VerifyHashes protects them)
+	tc, td := vrt.Byte("b.tamperConfigHash"), vrt.Byte("b.tamperDefinitionHash")
+	if len(h2.ConfigHash) == 32 && len(h2.DefinitionHash) == 32 {
+		h2.ConfigHash = bytes.Clone(h2.ConfigHash)
+		h2.DefinitionHash = bytes.Clone(h2.DefinitionHash)
+		h2.ConfigHash[0] ^= tc
+		h2.DefinitionHash[0] ^= td
+	}
 	l2 := Lock{Definition: h2, Validators: v2, LockHash: bytes.Clone(l1.LockHash)}
 	ok := l2.VerifyHashes() == nil
+	vrt.Assert("a lock whose embedded definition carries an altered config hash or definition hash does not verify", !ok || (tc == 0 && td == 0))
 	// file content: the definition through its own (version-aware) MarshalJSON, the validators through the lock's
 	// MarshalJSON around a blank definition of that version
 	j1, e1 := l1.Definition.MarshalJSON()
